@@ -292,6 +292,38 @@ def discrete_cases(rng, out, n, bounded, extreme=False):
     return terms, metas
 
 
+def index_jump_cases(rng, out, make, n):
+    """jumps of a one-parameter BoundedDiscrete index proposal (make(rng) -> proposal, parameter, successive, lo, hi) under scripted
+    draws that land on, just inside and just outside the edge cells: CBDJ cases for the model's redraw rule, whose law is bd_logpmf1"""
+    terms, metas = [], []
+    for _ in range(n):
+        prop, p, succ, lo, hi = make(rng)
+        std = float(prop._std[0])
+        for k in sorted(set([lo, hi, rng.randint(lo, hi), rng.randint(lo, hi)])):
+            edge = [(hi - k) + 0.3, (lo - k) - 0.3, (hi - k) + 0.7, (lo - k) - 0.7, (hi - k) - 0.2, (lo - k) + 0.2, 0.2, -0.3]
+            rng.shuffle(edge)
+            deltas = edge[:rng.choice([2, 3, 4])] + [rng.gauss(0, std) for _ in range(40)]
+            sc = Script(zs=[d / std for d in deltas])
+            with GenTap(script=sc):
+                try:
+                    res = prop.jump({p: k})
+                except IndexError:
+                    out.count('script_exhausted')
+                    continue
+                except Exception as e:      # noqa
+                    out.corr_failures.append(dict(note='index jump raised %r' % (e,), case=dict(family=prop.name, fromx=k, std=std)))
+                    continue
+            out.evaluations += 1
+            used = list(sc.normals)
+            out.count('index_jumps')
+            if len(used) <= 200:
+                terms.append('CBDJ %s %s %s %s %s %s %d%%nat' % (core.cbool(succ), core.cZ(lo), core.cZ(hi), core.cZ(k), fl(used),
+                                                                core.cZ(int(res[p])), len(used)))
+                metas.append(dict(family=prop.name, kind='jump', param=p, successive=succ, bounds=(lo, hi), std=std, fromx=k, draws=used,
+                                  result=int(res[p])))
+    return terms, metas
+
+
 def bounded_normal_cases(rng, out, n, extreme=False):
     terms, metas = [], []
     for _ in range(n):
@@ -354,6 +386,52 @@ def bounded_normal_cases(rng, out, n, extreme=False):
                     terms.append('CBNJ %s %s %s %s %d%%nat' % (core.cfloat(bnd[p][0]), core.cfloat(bnd[p][1]), fl(used), core.cfloat(res[p]), len(used)))
                     metas.append(dict(family=prop.name, kind='jump', param=p, bounds=bnd[p], fromx=fromx[p], ndraws=len(used), result=float(res[p])))
         out.count(prop.name)
+    return terms, metas
+
+
+def interval_cases(rng, out, n):
+    """slow proposals (jump_interval > 1) in every phase of their clock: on and off their jump iteration before the
+    interval's duration has elapsed, and after it.  Whatever the clock says, jump and logpdf must agree: when jump moves
+    the point, logpdf is the density of that move (CBN against the model); when jump returns the point, logpdf is 0."""
+    terms, metas = [], []
+    for _ in range(n):
+        npar = rng.choice([1, 2])
+        params = ['a', 'b'][:npar]
+        bnd = {p: rng.choice([(-3.0, 5.0), (0.0, 1.0)]) for p in params}
+        covs = [rng.choice([0.04, 1.0]) * (bnd[p][1] - bnd[p][0]) ** 2 for p in params]
+        k = rng.choice([2, 3, 5])
+        dur = rng.choice([3, 6, 40])
+        cls = rng.choice(['BoundedNormal', 'SSAdaptiveBoundedNormal', 'AdaptiveBoundedNormal'])
+        kw = dict(jump_interval=k, jump_interval_duration=dur)
+        if cls == 'BoundedNormal':
+            prop = P.BoundedNormal(params, bnd, cov=covs, **kw)
+        elif cls == 'SSAdaptiveBoundedNormal':
+            prop = P.SSAdaptiveBoundedNormal(params, bnd, cov=covs, **kw)
+        else:
+            dur = rng.choice([3, 6])     # the adaptive family takes the interval's duration from its adaptation duration
+            prop = P.AdaptiveBoundedNormal(params, bnd, adaptation_duration=dur, jump_interval=k)
+        prop.bit_generator = numpy.random.PCG64(rng.randrange(1, 10 ** 6))
+        stds = [float(s) for s in prop._std]
+        for clock in sorted(rng.sample(range(0, 8 * k + 2), 6)):
+            prop._nsteps = clock
+            fromx = {p: bnd[p][0] + (bnd[p][1] - bnd[p][0]) * rng.choice([0.02, 0.5, 0.97, rng.random()]) for p in params}
+            res = prop.jump(dict(fromx))
+            moved = any(float(res[p]) != float(fromx[p]) for p in params)
+            fwd = float(prop.logpdf(dict(res), dict(fromx)))
+            rev = float(prop.logpdf(dict(fromx), dict(res)))
+            out.evaluations += 1
+            out.count('interval_moved' if moved else 'interval_copied')
+            meta = dict(family=prop.name, kind='logpdf', jump_interval=k, jump_interval_duration=dur, clock=clock, bounds=bnd,
+                        stds=stds, given=fromx, xi={p: float(res[p]) for p in params})
+            if not moved:
+                if fwd != 0.0 or rev != 0.0:
+                    out.violations.append(dict(what='a slow proposal copied the point on iteration %d (interval %d, duration %r) but reports '
+                                                    'log densities %r / %r for that move' % (clock, k, dur, fwd, rev), replay=meta))
+                continue
+            for (xi, gv, val) in ((res, fromx, fwd), (fromx, res, rev)):
+                terms.append('CBN %s %s %s %s %s %s' % (fl([bnd[p][0] for p in params]), fl([bnd[p][1] for p in params]), fl(stds),
+                                                       fl([gv[p] for p in params]), fl([xi[p] for p in params]), core.cfloat(val)))
+                metas.append(dict(meta, value=val))
     return terms, metas
 
 
@@ -479,8 +557,87 @@ def eigen_cases(rng, out, n):
                 if fwd != rev:
                     out.violations.append(dict(what='eigenvector proposal declares itself symmetric but reports %r forward and %r backward for '
                                                     'its most recent jump' % (fwd, rev), replay=dict(family=prop.name, fromx=fromx)))
+        if bounded:
+            forced_redraw_case(prop, params, nd, rng, out)
         out.count(prop.name)
     return terms, metas
+
+
+class DirScript:
+    """dictates the direction picks and the displacements of an eigenvector jump; never shuffles"""
+
+    def __init__(self, picks, dxs):
+        self.picks, self.dxs = list(picks), list(dxs)
+        self.npick = self.ndx = 0
+
+    def __call__(self, owner, method, a, k, real):
+        if method == 'uniform':
+            return 0.999999
+        if method == 'choice':
+            v = a[0][self.picks[self.npick]]
+            self.npick += 1
+            return v
+        if method == 'normal':
+            v = self.dxs[self.ndx]
+            self.ndx += 1
+            return v
+        return real(*a, **k)
+
+
+def forced_redraw_case(prop, params, nd, rng, out):
+    """The density a bounded eigenvector proposal reports is that of ONE direction draw (with the eigenvalue
+    weights, wherever the chain is) followed by a normal displacement truncated to the segment along that
+    direction.  A jump whose first displacement leaves the bounds must therefore end along the direction
+    it drew first; the script supplies a different direction for any further pick."""
+    if prop.shuffle_rate >= 0.999999:
+        return
+    k1 = rng.randrange(nd)
+    k2 = (k1 + 1 + rng.randrange(nd - 1)) % nd
+    fromx = {p: rng.uniform(0.0, 2.0) for p in params}
+    dx_out, dx_in = 1e3, rng.choice([-1, 1]) * rng.uniform(0.01, 0.2)
+    sc = DirScript([k1] + [k2] * 8, [dx_out, dx_in] + [dx_in] * 8)
+    with GenTap(script=sc):
+        try:
+            res = prop.jump(dict(fromx))
+        except Exception as e:      # noqa
+            out.corr_failures.append(dict(note='bounded eigenvector jump with a refused first displacement raised %r' % (e,),
+                                          case=dict(family=prop.name, fromx=fromx)))
+            return
+    out.evaluations += 1
+    want = [fromx[p] + dx_in * float(prop.eigvects[i, k1]) for i, p in enumerate(params)]
+    got = [float(res[p]) for p in params]
+    out.count('forced_redraw')
+    if sc.npick == 1 and sc.ndx != 2:
+        out.corr_failures.append(dict(note='bounded eigenvector jump no longer draws displacements one at a time until one is in bounds '
+                                           '(%d normal draws for a scripted refused-then-accepted pair)' % sc.ndx,
+                                      case=dict(family=prop.name, fromx=fromx)))
+        return
+    if sc.npick != 1 or any(abs(a - b) > 1e-12 * (1 + abs(a)) for a, b in zip(want, got)):
+        out.violations.append(dict(
+            what='a bounded eigenvector jump whose first displacement left the bounds drew its direction %d times and ended at %r; '
+                 'one direction draw (eigenvector %d) followed by the accepted displacement %r along it ends at %r.  The direction '
+                 'law is then conditioned on the position, which the reported density (normal truncated along one direction) does '
+                 'not account for' % (sc.npick, got, k1, dx_in, want),
+            replay=dict(family=prop.name, fromx=fromx, eigvects=[[float(x) for x in r] for r in prop.eigvects],
+                        eigvals=[float(x) for x in prop.eigvals], direction_picks=[k1, k2], displacements=[dx_out, dx_in],
+                        result=got, expected=want)))
+
+
+def forced_redraw_block(rng, out, n):
+    """bounded eigenvector proposals (plain and adaptive, 2-3 parameters): forced_redraw_case on each"""
+    for i in range(n):
+        params = ['a', 'b'] if rng.random() < 0.6 else ['a', 'b', 'c']
+        nd = len(params)
+        A = numpy.array([[rng.uniform(-1, 1) for _ in range(nd)] for _ in range(nd)])
+        cov = A @ A.T + numpy.eye(nd) * 0.3
+        cov = (cov + cov.T) / 2
+        bnd = {p: (-3.0, 5.0) for p in params}
+        if i % 2:
+            prop = P.AdaptiveBoundedEigenvector(params, bnd, adaptation_duration=50)
+        else:
+            prop = P.BoundedEigenvector(params, bnd, cov=cov)
+        prop.bit_generator = numpy.random.PCG64(rng.randrange(1, 10 ** 6))
+        forced_redraw_case(prop, params, nd, rng, out)
 
 
 def vmf_cases(rng, out, n, extreme=False):
@@ -561,7 +718,7 @@ def birth_cases(rng, out, n):
 def all_cases(rng, out, scale=1, extreme=False):
     terms, metas = [], []
     for f, a in ((discrete_cases, dict(n=6 * scale, bounded=False, extreme=extreme)), (discrete_cases, dict(n=8 * scale, bounded=True, extreme=extreme)),
-                 (bounded_normal_cases, dict(n=6 * scale, extreme=extreme)), (normal_cases, dict(n=12 * scale)),
+                 (bounded_normal_cases, dict(n=6 * scale, extreme=extreme)), (interval_cases, dict(n=6 * scale)), (normal_cases, dict(n=12 * scale)),
                  (angular_cases, dict(n=5 * scale, extreme=extreme)), (eigen_cases, dict(n=5 * scale)),
                  (vmf_cases, dict(n=4 * scale, extreme=extreme)), (birth_cases, dict(n=6 * scale))):
         t, m = f(rng, out, **a)
